@@ -12,11 +12,12 @@ import (
 // C08 — lexing and parsing terminate on every input and end in a program or an error.
 
 type c08Case struct {
-	Mode       string `json:"mode"` // seq | prefix | mutation | tree
-	Seam       string `json:"seam"` // lex | parse | eval | page | layout | component
-	Src        string `json:"src"`
-	MustReject bool   `json:"must_reject,omitempty"`
-	Why        string `json:"why,omitempty"`
+	Mode       string            `json:"mode"`            // seq | prefix | mutation | tree | cycle
+	Files      map[string]string `json:"files,omitempty"` // cycle: the whole tree
+	Seam       string            `json:"seam"`            // lex | parse | eval | page | layout | component
+	Src        string            `json:"src"`
+	MustReject bool              `json:"must_reject,omitempty"`
+	Why        string            `json:"why,omitempty"`
 }
 
 var c08Lexemes = []string{
@@ -81,6 +82,9 @@ func c08Corpus() [][]c08seg {
 		{sT("<s>"), sN("@slot", 0), sT("-"), sD("@slot", `"n"`, 0), sT("</s>")},
 		{sD("@if", "x", 1), sD("@component", `"c"`, 0), end},
 		{sD("@each", "v in [1]", 1), sD("@for", "j = 0; j < 2; j++", 1), sP("j"), end, end},
+		// several statements in one pair of braces
+		{sP("x = 1; y = 2"), sP("x + y")},
+		{sT("a"), sP("x = 1; x"), sT("b")},
 		// blocks nested at the very end of insert blocks and slot bodies (their @end is not the body's @end)
 		{sD("@use", `"l"`, 0), sD("@insert", `"x"`, 1), sD("@if", "a", 1), sT("b"), end, end, sT("z")},
 		{sD("@insert", `"x"`, 1), sT("t"), sD("@each", "v in a", 1), sP("v"), sN("@else", 0), sT("n"), end, end},
@@ -164,6 +168,23 @@ func c08Check(cs c08Case) (ok bool, sig, expected, observed string) {
 		if o.Kind == KErr && o.Out != "" {
 			return false, "output-and-error", expected, o.String()
 		}
+	case "cycle":
+		t := Tree{Dir: "t", Ext: ".tw", Files: cs.Files}
+		t.write()
+		tpl, lo := t.load()
+		o = lo
+		if o.Kind == KPanic || o.Kind == KHang {
+			return false, o.Kind + "@" + o.Site, expected, o.String()
+		}
+		if o.Kind == KOut {
+			for n := range cs.Files {
+				ro := render(tpl, strings.TrimSuffix(n, ".tw"), nil)
+				if ro.Kind == KPanic || ro.Kind == KHang {
+					return false, "render-" + ro.Kind + "@" + ro.Site, expected, ro.String()
+				}
+			}
+		}
+		return true, "", expected, o.String()
 	case "page", "layout", "component":
 		t := c08Tree(cs.Seam, cs.Src)
 		t.write()
@@ -217,7 +238,7 @@ func init() {
 		ID:    "C08",
 		Level: "exploration",
 		Rule: "bounded-exhaustive: every sequence of <=k lexemes of the full lexeme alphabet (joined with and without spaces) at the lexer, parser and EvaluateString seams; " +
-			"every byte prefix and every single-token deletion/duplication/adjacent swap of a corpus of annotated valid templates; short sequences also as page/layout/component file content through NewTemplate. " +
+			"every byte prefix and every single-token deletion/duplication/adjacent swap of a corpus of annotated valid templates; short sequences also as page/layout/component file content through NewTemplate; trees whose files refer to each other in a cycle (components, layouts, self-reference). " +
 			"Cases are enumerated without repetition; a case is non-trivial when it is not a well-formed template (it contains an unterminated/unbalanced construct, an illegal character, or is a must-reject prefix)",
 		Bounds: func(tier string) map[string]any {
 			if tier == "thorough" {
@@ -344,6 +365,36 @@ func c08Run(c *Ctx) {
 				sw := append([]string{}, toks...)
 				sw[i], sw[i+1] = sw[i+1], sw[i]
 				mut(sw)
+			}
+		}
+	}
+
+	// (d) files that refer to each other in a cycle: loading and rendering must still terminate
+	if c.Mine() {
+		refs := []func(string) string{
+			func(n string) string { return `@component("` + n + `")` },
+			func(n string) string { return `<p>@component("` + n + `", {a: 1})@slot x@end@end</p>` },
+			func(n string) string { return `@use("` + n + `")@insert("i")I@end` },
+			func(n string) string { return `@reserve("i")@use("` + n + `")` },
+			func(n string) string { return `@if(true)@component("` + n + `")@end` },
+		}
+		for i, ra := range refs {
+			for j, rb := range refs {
+				cycles := []map[string]string{
+					{"a.tw": ra("a")},
+					{"a.tw": ra("b"), "b.tw": rb("a")},
+					{"a.tw": ra("b"), "b.tw": rb("c"), "c.tw": ra("a")},
+					{"components/a.tw": ra("~b"), "components/b.tw": rb("~a"), "index.tw": ra("~a")},
+					{"a.tw": ra("b") + rb("b"), "b.tw": rb("a") + "@slot" + ra("b")},
+				}
+				for k, files := range cycles {
+					if j > 0 && k == 0 {
+						continue
+					}
+					cs := c08Case{Mode: "cycle", Seam: "cycle", Files: files}
+					c.Sample(cs)
+					c08Do(c, cs, int64(1000+i*100+j*10+k))
+				}
 			}
 		}
 	}
